@@ -49,7 +49,7 @@ Proof. exact no_zero_length_match. Qed.
    and flag strings, the flag Regex::new computes equals "the specification's language contains the
    empty string" - with the three guard theorems above, replace_all / tokenize / analyze are refused
    exactly for the regexes the specification says match the zero-length string *)
-Theorem C16_group_grammar_nullable_exact :
+Theorem C16_group_grammar_nullable_exact_partial :
   forall xpath a fls,
     ok_a xpath a = true -> existsb (N.eqb 59) fls = false ->
     match spec_flags xpath fls with
@@ -67,4 +67,4 @@ Print Assumptions C16_tokenize_guard.
 Print Assumptions C16_tokenize_empty_input.
 Print Assumptions C16_nullable_is_match_on_empty.
 Print Assumptions C16_no_zero_length_match_fragment_partial.
-Print Assumptions C16_group_grammar_nullable_exact.
+Print Assumptions C16_group_grammar_nullable_exact_partial.
